@@ -67,6 +67,63 @@ pub fn asp_cfg() -> AspCfg {
     }
 }
 
+pub fn arith_cfg() -> AspCfg {
+    AspCfg {
+        preds: vec![("t".into(), 3), ("q".into(), 3), ("p".into(), 1)],
+        vars: vec!["X".into(), "Y".into(), "W".into()],
+        syms: vec!["a".into()],
+        num_lo: 0,
+        num_hi: 3,
+        term_depth: 1,
+        op_weights: [5, 3, 2, 2, 1, 3],
+        max_body: 2,
+        max_rules: 2,
+        exotic_leaf_weight: 0,
+    }
+}
+
+/// `t(X o1 n1, Y o2 n2, W o3 n3) :- q(X, Y, W).` and `p(X) :- q(t1, t2, t3), ...` with three arithmetic or
+/// interval terms over (mostly) distinct variables in one atom
+pub fn wide_arith_rule() -> BoxedStrategy<asp::Rule> {
+    let var = |v: &str| asp::Term::Variable(asp::Variable(v.into()));
+    let num = |n: isize| asp::Term::PrecomputedTerm(asp::PrecomputedTerm::Numeral(n));
+    (vec((0usize..3, 0u8..5, 0isize..3), 3), any::<bool>())
+        .prop_map(move |(parts, in_head)| {
+            let names = ["X", "Y", "W"];
+            // mostly three different variables (a rotation of X, Y, W), sometimes a repeated one
+            let rot = parts[0].0;
+            let repeat = parts[1].0 == 0 && parts[2].0 == 0;
+            let wide: Vec<asp::Term> = parts
+                .iter()
+                .enumerate()
+                .map(|(i, (v, op, n))| {
+                    let v = &(if repeat { *v } else { (i + rot) % 3 });
+                    let (op, l, r) = match op {
+                        0 | 1 => (asp::BinaryOperator::Add, var(names[*v]), num(*n + 1)),
+                        2 => (asp::BinaryOperator::Multiply, num(2), var(names[*v])),
+                        3 => (asp::BinaryOperator::Divide, var(names[*v]), num(2)),
+                        _ => (asp::BinaryOperator::Interval, num(1), num(*n + 1)),
+                    };
+                    asp::Term::BinaryOperation { op, lhs: Box::new(l), rhs: Box::new(r) }
+                })
+                .collect();
+            let plain = asp::Atom { predicate_symbol: "q".into(), terms: vec![var("X"), var("Y"), var("W")] };
+            let lit = |a: asp::Atom| asp::AtomicFormula::Literal(asp::Literal { sign: asp::Sign::NoSign, atom: a });
+            if in_head {
+                asp::Rule {
+                    head: asp::Head::Basic(asp::Atom { predicate_symbol: "t".into(), terms: wide }),
+                    body: asp::Body { formulas: vec![lit(plain)] },
+                }
+            } else {
+                asp::Rule {
+                    head: asp::Head::Basic(asp::Atom { predicate_symbol: "p".into(), terms: vec![var("X")] }),
+                    body: asp::Body { formulas: vec![lit(asp::Atom { predicate_symbol: "t".into(), terms: wide }), lit(plain)] },
+                }
+            }
+        })
+        .boxed()
+}
+
 impl Source {
     pub fn formula(&self) -> Option<fol::Formula> {
         match self {
@@ -132,6 +189,14 @@ impl Check for C07 {
             5 => g::guarded_formula(&fc).prop_map(Source::Formula),
             1 => g::formula(&fc).prop_map(Source::Formula),
             4 => (ga::program(&ac), any::<u8>(), any::<u8>()).prop_map(|(p, k, i)| Source::Program(p, k, i)),
+            // rules with several arithmetic terms at once (wide atoms, shallow terms): the translations
+            // and the simplifier then need three and more fresh variables of one letter in one block
+            2 => (ga::program(&arith_cfg()), any::<u8>(), any::<u8>()).prop_map(|(p, k, i)| Source::Program(p, k, i)),
+            2 => (wide_arith_rule(), ga::program(&arith_cfg()), any::<u8>(), any::<u8>()).prop_map(|(r, mut p, k, i)| {
+                p.rules.truncate(1);
+                p.rules.insert(0, r);
+                Source::Program(p, k, i)
+            }),
         ];
         (
             source,
@@ -223,7 +288,12 @@ impl Check for C07 {
                 if changed && key % 8 == 0 {
                     labels.extend(rewrites_that_fire(&before, portfolio));
                 }
-                Outcome::pass(changed, key).labels(labels)
+                Outcome::pass(changed, key).labels(labels).readable(format!(
+                    "{portfolio}/{}\n  before: {shown}\n  after : {after}\n  verdict: {vb:?}\n  H: {}\n  T: {}\n  assignment: {envp:?}",
+                    strategy.name(),
+                    h.json(),
+                    t.json()
+                ))
             }
             _ => Outcome::skip("verdict not definite (unguarded quantifier or budget)").labels(labels),
         }
